@@ -44,9 +44,9 @@ def handle (toks : List String) (impl : Option String) : Option (String × Strin
       (acc.1 ++ [match c with | .success => 's' | .invalidSequence => 'i' | .unexpectedEnd => 'e'], acc.2 ++ b)) ([], init)
     let ans := s!"{String.ofList codes} {hexBytes bytes}"
     let v := match impl.map (·.splitOn " ") with
-      | some [_, hb] =>
+      | some [cs, hb] =>
         match parseBytes hb with
-        | some b => verdictStr (judgeWrite t addBom wi ss b)
+        | some b => verdictStr (judgeWrite t addBom wi ss cs.toList b)
         | none => "bad:unparsable_answer"
       | some _ => "bad:unparsable_answer"
       | none => "nospec"
